@@ -209,10 +209,17 @@ class BlobExchangeClientProtocol(asyncio.Protocol):
                 self.writer.close_handle()
                 self.writer = None
             if length_was_unknown and not blob.get_is_verified() and blob.is_writeable() and \
-                    all(writer.closed() for writer in blob.writers.values()):
+                    all(writer.closed() and not self._delivered_blob(writer) for writer in blob.writers.values()):
                 # the length was only this peer's claim and the transfer failed: forget it, otherwise a peer
                 # announcing a wrong length makes every later download of this blob fail
                 blob.length = None
+
+    @staticmethod
+    def _delivered_blob(writer: 'HashBlobWriter') -> bool:
+        # a writer that has just received the complete, correct blob is closed already, but the blob only becomes
+        # verified once the callbacks of its future have run: until then its length must not be forgotten
+        finished = writer.finished
+        return finished.done() and not finished.cancelled() and finished.exception() is None
 
     def connection_made(self, transport: asyncio.Transport):
         addr = transport.get_extra_info('peername')
